@@ -1,0 +1,9 @@
+//go:build verif
+
+// Contracts for the govc verifier (see /verif/DESIGN.md). Comment-only file.
+package events
+
+//@ # pending events of the block: an abstract log; adding an event touches nothing else
+//@ ghost eventLog() int
+//@ func iface IEventsDB.AddEvent
+//@   modifies eventLog
